@@ -118,7 +118,7 @@ theorem pushScalar_interpH (ext : Ext) : ∀ (b : B) (x : SVal) (b' : B) (dt : D
     obtain ⟨⟨kdt, vdt, rfl, hsv⟩, hil, _, hu⟩ := hs
     rcases hu with hu | hr
     · obtain ⟨s, hs', rfl⟩ := dict_push_rowH ext hwf hil hu h hd
-      exact ⟨by simp only [interpScalar, hs', interpDictStr_utf8 ext s hsv hu], rfl⟩
+      exact ⟨by simp only [interpScalar_eq_old, normErr_ok_iff, interpScalarOld, hs', interpDictStr_utf8 ext s hsv hu], rfl⟩
     · exact (dict_push_refused ext (DictVals.of_wfh hwf).2 hr h).elim
   | .list _ _ _ _ _ _, x, b', _, _, _, _, _, _, h, _, _ => by simp [pushScalar, notSupported, fail] at h
   | .fixedSizeList _ _ _ _ _ _ _, x, b', _, _, _, _, _, _, h, _, _ => by simp [pushScalar, notSupported, fail] at h
